@@ -137,6 +137,20 @@ func encField(s string) string {
 	return c.Tok() + "@" + n.String()
 }
 
+// encFieldHB: as encField; a range cut into more than 2^12 blocks is exercised for robustness only (the model keeps
+// the used blocks of a pool in a list: a node CIDR spanning millions of blocks would stall the driver, not the code)
+func encFieldHB(s string, hb int) string {
+	e := encField(s)
+	if strings.HasPrefix(e, "4:") || strings.HasPrefix(e, "6:") {
+		_, n, _ := parseCIDR(s)
+		ones, bits := n.Mask.Size()
+		if hb >= 0 && bits-hb-ones > 12 {
+			return "X@" + s
+		}
+	}
+	return e
+}
+
 func decField(f string) string {
 	switch {
 	case f == "_":
@@ -355,7 +369,10 @@ func (w *world) exec(line string) stepResult {
 		} else if exists {
 			w.refreshNodeCache(name)
 			var obj interface{}
-			if f[2] == "1" {
+			if f[2] == "1" && len(f) > 3 && f[3] == "X@nil" {
+				// a tombstone that carries no object at all (DeltaFIFO.Replace when the key is gone from the store)
+				obj = cache.DeletedFinalStateUnknown{Key: name, Obj: nil}
+			} else if f[2] == "1" {
 				obj = cache.DeletedFinalStateUnknown{Key: name, Obj: old}
 			} else if g, ok := w.graves[name]; ok {
 				obj = g.DeepCopy()
@@ -899,6 +916,11 @@ func genHistory(o *Out, rng *rand.Rand, id int, length int, profile string) []st
 		return g.lines
 	}
 	g.do(g.bootLine(profile == "svc" || rng.Intn(8) == 0))
+	if (profile == "" || profile == "restart") && rng.Intn(6) == 0 {
+		g.lifeHistory()
+		g.stat["lifecycle-histories"]++
+		return g.lines
+	}
 	for k := 0; k < length && !g.dead; k++ {
 		w := g.w
 		x := rng.Intn(100)
@@ -1031,6 +1053,112 @@ func genHistory(o *Out, rng *rand.Rand, id int, length int, profile string) []st
 	return g.lines
 }
 
+// lifeHistory: a directed history through the whole life of assignments and ClusterCIDRs — nodes served with
+// every write outcome, retried while the cache catches up, re-synced, (restart), the serving ClusterCIDRs deleted
+// while nodes depend on them, nodes deleted, ClusterCIDRs released — with random choices at every step.
+func (g *gen) lifeHistory() {
+	rng := g.rng
+	w := g.w
+	settleCC := func() {
+		for _, n := range g.stale("cc") {
+			g.do("deliverCC " + n)
+		}
+		for _, k := range w.ccQ.keys() {
+			wo := "-"
+			if rng.Intn(6) == 0 {
+				wo = []string{"fail", "lost"}[rng.Intn(2)]
+			}
+			g.do("procCC " + k + " " + wo)
+		}
+	}
+	for _, p := range g.plans {
+		if _, ok := w.ccs[p.name]; !ok {
+			g.do(ccLine(p))
+		}
+	}
+	settleCC()
+	settleCC()
+	nodes := g.nodeNames()[:2+rng.Intn(3)]
+	for _, n := range nodes {
+		if _, ok := w.nodes[n]; !ok {
+			g.do(fmt.Sprintf("nodeAdd %s %s -", n, labelPalette[rng.Intn(len(labelPalette))]))
+		}
+		g.do("deliverNode " + n + " 0")
+	}
+	for _, n := range nodes {
+		if !w.nodeQ.pending[n] {
+			continue
+		}
+		ws := []string{"-", "-", "lost,lost,lost", "fail,ok", "fail,fail,fail", "lost,ok"}[rng.Intn(6)]
+		// the cache may already be behind when the item starts (an older notification queued the key)
+		g.do(fmt.Sprintf("procNode %s %d %s", n, b2i(rng.Intn(3) == 0), ws))
+		for t := 0; t < 2 && w.nodeQ.pending[n] && !g.dead; t++ {
+			// a retry, or the item of the next notification, meets a cache that has caught up (or not)
+			g.do(fmt.Sprintf("procNode %s %d -", n, b2i(rng.Intn(3) > 0)))
+		}
+	}
+	// re-sync
+	for _, n := range nodes {
+		g.do("deliverNode " + n + " 0")
+		if w.nodeQ.pending[n] && rng.Intn(3) > 0 {
+			g.do(fmt.Sprintf("procNode %s 0 -", n))
+		}
+	}
+	if g.profile == "restart" || rng.Intn(3) == 0 {
+		g.do(g.bootLine(false))
+		for _, k := range w.nodeQ.keys() {
+			if rng.Intn(2) == 0 {
+				g.do(fmt.Sprintf("procNode %s 0 -", k))
+			}
+		}
+	}
+	// the ClusterCIDRs go while nodes depend on them
+	for _, c := range sortedMapKeys(w.ccs) {
+		if rng.Intn(3) > 0 {
+			g.do("ccDel " + c)
+		}
+	}
+	settleCC()
+	if rng.Intn(2) == 0 {
+		// a new node meanwhile
+		n := g.nodeNames()[5]
+		g.do(fmt.Sprintf("nodeAdd %s %s -", n, labelPalette[rng.Intn(len(labelPalette))]))
+		g.do("deliverNode " + n + " 0")
+		if w.nodeQ.pending[n] {
+			g.do(fmt.Sprintf("procNode %s 0 -", n))
+		}
+	}
+	settleCC()
+	// the nodes go
+	for _, n := range nodes {
+		if rng.Intn(4) == 0 {
+			g.do("nodeDeleting " + n)
+			g.do("deliverNode " + n + " 0")
+			if w.nodeQ.pending[n] {
+				g.do(fmt.Sprintf("procNode %s 0 -", n))
+			}
+		}
+		if rng.Intn(5) > 0 {
+			g.do("nodeDel " + n)
+			g.do(fmt.Sprintf("deliverNode %s %d", n, b2i(rng.Intn(5) == 0)))
+			if w.nodeQ.pending[n] {
+				g.do(fmt.Sprintf("procNode %s 0 -", n))
+			}
+		}
+	}
+	settleCC()
+	settleCC()
+	// and what is left serves a newcomer
+	n := g.nodeNames()[4]
+	if _, ok := w.nodes[n]; !ok {
+		g.do(fmt.Sprintf("nodeAdd %s %s -", n, labelPalette[rng.Intn(len(labelPalette))]))
+	}
+	g.do("deliverNode " + n + " 0")
+	if w.nodeQ.pending[n] {
+		g.do(fmt.Sprintf("procNode %s 0 -", n))
+	}
+}
+
 // orderHistory: many nodes with one label set against 3..5 ClusterCIDRs that all select them, created in
 // arbitrary order, served until the higher-priority ones are exhausted (C07).
 func (g *gen) orderHistory(length int) {
@@ -1121,13 +1249,17 @@ func (g *gen) malEvent() {
 		}
 		v4, v6 = strings.TrimSpace(v4), strings.TrimSpace(v6)
 		hb := malHostBits[rng.Intn(len(malHostBits))]
-		g.do(fmt.Sprintf("ccAdd %s %d %s %s %s", name, hb, encField(v4), encField(v6), encRawSel(selPalette[rng.Intn(len(selPalette))])))
+		g.do(fmt.Sprintf("ccAdd %s %d %s %s %s", name, hb, encFieldHB(v4, hb), encFieldHB(v6, hb), encRawSel(selPalette[rng.Intn(len(selPalette))])))
 	case 2: // node with pod CIDRs nobody can make sense of, or of a family / range no ClusterCIDR has
 		n := g.nodeNames()[rng.Intn(6)]
 		g.do(fmt.Sprintf("nodeAdd %s %s %s", n, labelPalette[rng.Intn(len(labelPalette))], malNodeCIDRs[rng.Intn(len(malNodeCIDRs))]))
 	case 3: // tombstone delivery
 		if st := g.stale("node"); len(st) > 0 {
-			g.do(fmt.Sprintf("deliverNode %s 1", st[rng.Intn(len(st))]))
+			if rng.Intn(3) == 0 {
+				g.do(fmt.Sprintf("deliverNode %s 1 X@nil", st[rng.Intn(len(st))]))
+			} else {
+				g.do(fmt.Sprintf("deliverNode %s 1", st[rng.Intn(len(st))]))
+			}
 		}
 	case 4: // restart with service ranges of either family
 		g.do(g.bootLine(true))
